@@ -39,6 +39,7 @@ fn main() {
         "c15" => c15::main(&a),
         "c05" => lg::c05(&a),
         "c11" => lg::c11(&a),
+        "c12" => lg::c12(&a),
         other => {
             eprintln!("unknown subcommand {other}");
             std::process::exit(2);
